@@ -866,7 +866,8 @@ bool DTDScanner::scanAttValue(const   XMLCh* const        attrName
             //
             //  Otherwise, we do the standard non-CDATA normalization of
             //  compressing whitespace to single spaces and getting rid of
-            //  leading and trailing whitespace.
+            //  leading and trailing whitespace. A tab or line end given as
+            //  a char ref is not whitespace here, only an escaped space is.
             //
             if (type == XMLAttDef::CData)
             {
@@ -880,7 +881,7 @@ bool DTDScanner::scanAttValue(const   XMLCh* const        attrName
             {
                 if (curState == InWhitespace)
                 {
-                    if (!fReaderMgr->getCurrentReader()->isWhitespace(nextCh))
+                    if ((escaped && nextCh != chSpace) || !fReaderMgr->getCurrentReader()->isWhitespace(nextCh))
                     {
                         if (firstNonWS)
                             toFill.append(chSpace);
@@ -894,7 +895,8 @@ bool DTDScanner::scanAttValue(const   XMLCh* const        attrName
                 }
                  else if (curState == InContent)
                 {
-                    if (fReaderMgr->getCurrentReader()->isWhitespace(nextCh))
+                    if ((nextCh == chSpace) ||
+                        (fReaderMgr->getCurrentReader()->isWhitespace(nextCh) && !escaped))
                     {
                         curState = InWhitespace;
                         continue;
